@@ -1590,18 +1590,19 @@ def run_tolinen_restored_without_init(ctx, i, rng):
     v = lm.init(rngs, x)
     call_rngs = {'dropout': jax.random.key(99)} if with_rng else {}
     want = lm.apply(v, x, rngs=call_rngs)
-    added = [k for k in variablelib.VariableTypeCache if k not in before]
+    # a process that never ran init: forget every name init may have linked (also when an earlier stream of this worker had
+    # registered the rng types already)
+    added = [k for k in variablelib.VariableTypeCache if k not in before or k in ('RngKey', 'RngCount', 'Tally')]
     for k in added:
-      variablelib.VariableTypeCache.pop(k)            # a process that never ran init
+      variablelib.VariableTypeCache.pop(k)
     try:
       got = lm.apply(v, x, rngs=call_rngs)
       ctx.check(close(got, want), 'tolinen.restored_without_init:output', lambda: dict(case=desc))
     except Exception as e:  # noqa: BLE001
       ctx.check(False, 'tolinen.restored_without_init:apply_raises', dict(case=desc, forgotten=added, error=repr(e)[:300]))
     finally:
-      for k in list(variablelib.VariableTypeCache):
-        if k not in before:
-          variablelib.VariableTypeCache.pop(k)
+      variablelib.VariableTypeCache.clear()
+      variablelib.VariableTypeCache.update(before)
     ctx.op('ToLinen.apply(variables restored in a fresh process)')
 
 
